@@ -7,6 +7,7 @@ from importlib import import_module
 from typing import Any, Callable, Final, Iterator, Union, Tuple
 
 _MISSING: Final[object] = object()
+_INHERITED: Final[object] = object()
 
 
 def _resolve(target: Union[str, Any]) -> Any:
@@ -44,17 +45,23 @@ def apply_patches(specs: list[PatchSpec]) -> Iterator[None]:
         for s in specs:
             tgt = _resolve(s.target)
             orig = getattr(tgt, s.attr, _MISSING)
+            namespace = getattr(tgt, "__dict__", None)
+            if orig is not _MISSING and namespace is not None and s.attr not in namespace:
+                # inherited (e.g. a method defined by a base class): the target itself
+                # has no such attribute, so restoring means deleting the override again
+                orig = _INHERITED
             if isinstance(s, AssignSpec):
                 setattr(tgt, s.attr, s.value)
             else:  # MonkeyPatchSpec
-                new_val = s.make_value(None if orig is _MISSING else orig)
+                seen = getattr(tgt, s.attr, None) if orig is _INHERITED else orig
+                new_val = s.make_value(None if seen is _MISSING else seen)
                 setattr(tgt, s.attr, new_val)
             applied.append((tgt, s.attr, orig))
         yield
     finally:
         # unwind in reverse order
         for tgt, attr, orig in reversed(applied):
-            if orig is _MISSING:
+            if orig is _MISSING or orig is _INHERITED:
                 try:
                     delattr(tgt, attr)
                 except Exception:
